@@ -22,8 +22,46 @@ macro_rules! props {
 }
 
 props! {
+    "C01" => c01 : "exploration",
+    "C02" => c02 : "exploration",
+    "C03" => c03 : "exploration",
+    "C04" => c04 : "model_checking",
+    "C05" => c05 : "exploration",
+    "C06" => c06 : "exploration",
+    "C07" => c07 : "model_checking",
+    "C08" => c08 : "exploration",
+    "C09" => c09 : "exploration",
+    "C10" => c10 : "exploration",
+    "C11" => c11 : "exploration",
+    "C12" => c12 : "exploration",
+    "C13" => c13 : "model_checking",
     "C14" => c14 : "exploration",
+    "C15" => c15 : "exploration",
+    "C16" => c16 : "exploration",
+    "C17" => c17 : "exploration",
+    "C18" => c18 : "exploration",
+    "C19" => c19 : "exploration",
+    "C20" => c20 : "exploration",
+    "C21" => c21 : "exploration",
+    "C22" => c22 : "exploration",
     "C23" => c23 : "fault_enumeration",
+    "C24" => c24 : "model_checking",
+    "C25" => c25 : "model_checking",
+    "C26" => c26 : "model_checking",
+    "C27" => c27 : "model_checking",
+    "C28" => c28 : "exploration",
+    "C29" => c29 : "exploration",
+    "C30" => c30 : "exploration",
+    "C31" => c31 : "model_checking",
+    "C32" => c32 : "exploration",
+    "C33" => c33 : "exploration",
+    "C34" => c34 : "exploration",
+    "C35" => c35 : "fault_enumeration",
+    "C36" => c36 : "exploration",
+    "C37" => c37 : "exploration",
+    "C38" => c38 : "model_checking",
+    "C39" => c39 : "exploration",
+    "C40" => c40 : "exploration",
 }
 
 fn main() {
